@@ -86,6 +86,8 @@ class Inst:
             return np.full(len(self.sched_S), float(self.pf))
         if s == "KA":
             return np.full(len(self.sched_S), self.pf_alt)
+        if s == "E":
+            return np.array([], dtype=float)
         if s == "O":
             return np.array([float(self.sched_S[0])])
         raise KeyError(s)
